@@ -398,6 +398,6 @@ func init() {
 		Level:       "other",
 		Explanation: "Structural clauses only: the hard cap d + maximumSuspension on the underlying context/timer; no negative time credit for caller-supplied timestamps; Suspend/Resume bracketing of every decorated storage call on all paths, with buffer-returning methods handing Resume to the buffer's Done handler; the run context is derived from the executor's clock with the action's timeout and the duration is read after Done; bb_worker wires one SuspendableClock into executor and decorators. The re-arm arithmetic, threshold handling and accounting of overlapping suspensions over timelines are NOT decided.",
 		Assumptions: []string{"bb-storage buffers call Done exactly once when fully consumed or discarded"},
-		Rules:       []RuleFunc{c11Cap, c11Bracket, c11RunContext, c11Transitions, c11ContextErr, c11Init, c11ResumeOnce},
+		Rules:       []RuleFunc{c11Cap, c11Bracket, c11RunContext, c11Transitions, c11ContextErr, c11Init, c11ResumeOnce, c11NoDeadlineOverride},
 	})
 }
